@@ -98,7 +98,9 @@ pub fn eval_node<F: FnMut(&GraphColoredVertices, &str)>(
                 let var_curr = reverse_renaming.get(var_canon).unwrap();
                 result = substitute_hctl_var(graph, &result, var_res, var_curr);
             }
-            return result;
+            // the cached set (or user-provided wild-card set) may come from a graph with a larger
+            // unit set than the current one (we may be inside a restricted-domain scope)
+            return result.intersect(graph.unit_colored_vertices());
         } else {
             // if the cache does not contain result for this subformula, set insert flag
             save_to_cache = true;
@@ -123,7 +125,8 @@ pub fn eval_node<F: FnMut(&GraphColoredVertices, &str)>(
     // 2) fixed-points
     if is_fixed_point_pattern(&node) {
         progress_callback(&empty_set, "Evaluating fixed-point pattern.");
-        return steady_states.clone();
+        // steady states are pre-computed on the original graph, its unit set may be larger
+        return steady_states.intersect(graph.unit_colored_vertices());
     }
 
     let result = match node.node_type {
